@@ -109,9 +109,11 @@ theorem stepForce_inv (s : St) (r : Nat) (gov : Bool) (g : GInfo) (h : AllRa RaI
     | (rename_i ra hg _ _
        exact h.setRa (force_inv _ (h.get hg) (by simp_all)))
 
-theorem stepPlan_inv (s : St) (r : Nat) (owner : Bool) (alloc : Int) (dur : Nat) (te : Bool) (h : AllRa RaInv s) :
-    AllRa RaInv (stepPlan s r owner alloc dur te).1 := by
+theorem stepPlan_inv (s : St) (r : Nat) (owner : Bool) (alloc : Int) (dur : Nat) (te : Bool) (start : Option Nat) (h : AllRa RaInv s) :
+    AllRa RaInv (stepPlan s r owner alloc dur te start).1 := by
   unfold stepPlan
+  split
+  · exact h
   cases hg : getRa s r with
   | none => exact h
   | some ra =>
@@ -152,6 +154,26 @@ theorem stepLink2_inv (s : St) (r : Nat) (h : AllRa RaInv s) : AllRa RaInv (step
   repeat' split
   all_goals exact h
 
+theorem stepCanon_inv (s : St) (r : Nat) (h : AllRa RaInv s) : AllRa RaInv (stepCanon s r).1 := by
+  unfold stepCanon
+  repeat' split
+  all_goals first
+    | exact h
+    | (rename_i ra hg _
+       exact h.setRa (link_inv ra.chan (h.get hg)))
+
+theorem chan_inv {ra : Ra} (c : Option Nat) (hra : RaInv ra) : RaInv { ra with chan := c } :=
+  ⟨hra.wf, hra.sealedI, hra.closed, hra.opened⟩
+
+theorem stepChopen_inv (s : St) (r : Nat) (via : Nat) (h : AllRa RaInv s) : AllRa RaInv (stepChopen s r via).1 := by
+  unfold stepChopen
+  repeat' split
+  all_goals first
+    | exact h
+    | exact h.of_ras rfl
+    | (rename_i ra hg _ _ _
+       exact AllRa.of_ras (h.setRa (chan_inv _ (h.get hg))) rfl)
+
 theorem stepSend_inv (s : St) (c : Nat) (h : AllRa RaInv s) : AllRa RaInv (stepSend s c).1 := by
   unfold stepSend
   repeat' split
@@ -170,12 +192,14 @@ theorem step_inv (s : St) (op : Op) (h : AllRa RaInv s) (hp : PhOk op) : AllRa R
   | create r g => exact stepCreate_inv s r g h
   | setgi r owner g => exact stepSetgi_inv s r owner g h
   | force r gov g => exact stepForce_inv s r gov g h
-  | plan r owner alloc dur te => exact stepPlan_inv s r owner alloc dur te h
+  | plan r owner alloc dur te start => exact stepPlan_inv s r owner alloc dur te start h
   | enable r owner => exact stepEnable_inv s r owner h
   | tick dt => exact h.of_ras rfl
   | seq r => exact stepSeq_inv s r h
   | link r => exact stepLink_inv s r h
   | link2 r => exact stepLink2_inv s r h
+  | canon r => exact stepCanon_inv s r h
+  | chopen r via => exact stepChopen_inv s r via h
   | plainch => exact h.of_ras rfl
   | send c => exact stepSend_inv s c h
   | recv c ph p => exact stepRecv_inv s c ph p h hp
